@@ -817,7 +817,8 @@ def clang_trees(tag, lang, progs):
             else:
                 f.write("static auto vc19_%d(%s) { return %s ; }\n" % (pid, PARAMS, text.replace("\n", " ")))
     cmd = (["clang-14", "-std=gnu11"] if lang == "c" else ["clang++-14", "-std=c++17"]) + \
-          ["-w", "-fsyntax-only", "-ferror-limit=0", "-Xclang", "-ast-dump", "-Xclang", "-ast-dump-filter=vc19_", src]
+          ["-w", "-fsyntax-only", "-ferror-limit=0", "-fbracket-depth=2048", "-Xclang", "-ast-dump", "-Xclang",
+           "-ast-dump-filter=vc19_", src]
     rc, so, se = sh_retry(cmd, 1200)
     out, cur, rows = {}, None, []
 
@@ -1537,6 +1538,10 @@ def run(chk, replay=None):
         a = py_tree(texts[pid][3].strip())     # blanks around the whole expression are harmless
         b = py_tree(oracle_text(syms, t, 3, True))
         chk.count("python_ast_checked")
+        if b.startswith("error") and any(w in b for w in ("too many nested parentheses", "RecursionError", "MemoryError",
+                                                            "too complex", "parser stack overflow")):
+            chk.count("python_ast_skipped_nesting_limit_of_the_oracle")      # a limit of python3's parser, not of vita
+            continue
         if a.startswith("error"):
             fail(pid, 3, "python-syntax", "python3 ast.parse rejects the text: " + a)
         elif a != b:
